@@ -107,6 +107,29 @@ func frameJobs(tier string) []*Job {
 	if thorough {
 		add(mk(131072+40, -65536, 5, 0, 1, 0, 0, 0, 4, 0, 0, 0))
 	}
+	// levels 2..8 (HC chain depths 1024..65536): a tiny all-symbolic input under rotating options and
+	// a compressible input per level (thorough: both checksum settings, legacy, two periods)
+	r2 := &lcg{s: 777}
+	for level := 2; level <= 8; level++ {
+		if thorough {
+			for bc := 0; bc <= 1; bc++ {
+				for cc := 0; cc <= 1; cc++ {
+					n := []int{0, 1, 5, 6}[r2.next(4)]
+					add(mk(n, 0, 4+r2.next(4), bc, cc, r2.next(2), level, 0, r2.next(9), r2.next(n+1), r2.next(5), r2.next(4)))
+				}
+			}
+			add(mk(6, 0, 4, 0, 0, 0, level, 1, r2.next(9), 3, r2.next(5), r2.next(4)))
+			for _, period := range []int{1, 2} {
+				for _, n := range []int{40, 70} {
+					add(mk(n, period, 4+r2.next(4), 1, 1, r2.next(2), level, 0, []int{0, 1, 2, 4}[r2.next(4)], []int{1, 17, n / 2, n - 1}[r2.next(4)], r2.next(5), r2.next(4)))
+				}
+			}
+		} else {
+			n := []int{0, 1, 5, 6}[r2.next(4)]
+			add(mk(n, 0, 4+r2.next(4), r2.next(2), r2.next(2), r2.next(2), level, 0, r2.next(9), r2.next(n+1), r2.next(5), r2.next(4)))
+			add(mk(40, 1+level%2, 4+r2.next(4), 1, 1, r2.next(2), level, 0, []int{0, 1, 2, 4}[r2.next(4)], []int{1, 17, 20, 39}[r2.next(4)], r2.next(5), r2.next(4)))
+		}
+	}
 	// growing tiny inputs, all bytes symbolic
 	N := 8
 	if thorough {
@@ -121,7 +144,7 @@ func frameJobs(tier string) []*Job {
 
 func frameBounds(tier string) []string {
 	return []string{
-		"option matrix: 4 block sizes x block checksum x content checksum x content size (symbolic 64-bit value) x level {Fast, Level1, Level9} x legacy, each on a tiny input (0..6 symbolic bytes) with a rotating delivery / read-back shape",
+		"option matrix: 4 block sizes x block checksum x content checksum x content size (symbolic 64-bit value) x level {Fast, Level1, Level9} x legacy (and Level2..Level8 each on a tiny and on a 40-byte (thorough 40/70) compressible input under rotating options), each on a tiny input (0..6 symbolic bytes) with a rotating delivery / read-back shape",
 		"every delivery shape {one Write; Write|Write; Write|Flush|Write; Flush,Write,Flush,Flush; ReadFrom with 4 source fragmentation modes; byte-by-byte} x read-back {Read >= block size; Read 3-byte buffers; WriteTo; mixed 1/2/7/block+1; block-1} x source fragmentation {full; 1 byte; data+EOF; zero-length reads}",
 		"compressible inputs of 40 and 70 bytes (thorough: 24..300) built from a symbolic period of 1..3 bytes: real compressed blocks, with splits",
 		"131112 incompressible bytes with an exact 64 KiB period in one 256 KiB block (redundancy only at distance 65536)",
@@ -133,7 +156,7 @@ func frameBounds(tier string) []string {
 var frameOutside = []string{
 	"concurrency != 1 (Writer and Reader goroutine pipelines are not encoded)",
 	"256 KiB..4 MiB block boundaries; arbitrary content in block-size inputs (only two tail bytes are symbolic)",
-	"levels 2..8",
+	"levels 2..8 beyond the rotating-option jobs named above (they differ from Level1/Level9 only in the HC chain depth)",
 }
 
 var frameAssumptions = []string{
